@@ -544,7 +544,7 @@ pub fn run(ctx: &Ctx) -> Outcome {
         for (s, r) in &res {
             judge(&mut out, s, r);
         }
-        if out.violations.len() >= 4 {
+        if fw::stop_early(&mut out) {
             out.note("stopped_early_after_violations", json!(true));
             break;
         }
